@@ -34,6 +34,16 @@ type Case struct {
 	Origin string        `json:"origin,omitempty"`
 }
 
+// excludeF53 is set while finding F53 is open; it counts the programs steered around.
+var excludeF53 func()
+
+func setupExclusions(ctx *h.Ctx) {
+	excludeF53 = nil
+	if ctx.Open("F53") {
+		excludeF53 = func() { ctx.Rec.Exclude("F53") }
+	}
+}
+
 var okClass = regexp.MustCompile(`^(ok|stopped|test|toomuch|exit:-?\d+|panic:[a-z]+)$`)
 
 var concreteType = regexp.MustCompile(`^((\[\]|\{\})*)(num|string|bool|any)$`)
@@ -48,6 +58,14 @@ func checkCase(c Case) (*h.Failure, *rec.Result) {
 			fl.Case = c
 		}
 		return fl, res
+	}
+	if excludeF53 != nil {
+		// open finding F53: a repetition with a large count exhausts the host's memory in one
+		// allocation, which no in-process budget can catch: such programs are not run here
+		if prog, errs, crash := rec.SafeParse(c.Src); crash == nil && errs == nil && rec.UnboundedRepetition(prog) {
+			excludeF53()
+			return nil, nil
+		}
 	}
 	res := rec.Run(c.Src, rec.Opts{Inputs: c.Inputs, Fuel: 100000, MaxLog: 20000})
 	mk := func(kind, detail string) *h.Failure {
@@ -116,6 +134,7 @@ func TestModel(t *testing.T) {
 		t.Skip("replay run")
 	}
 	ctx := h.Setup(t, "C02")
+	setupExclusions(ctx)
 	rapid.Check(t, func(t *rapid.T) {
 		cfg := gen.Default
 		cfg.Asserts, cfg.RiskyIndex, cfg.Shadow, cfg.EarlyExit, cfg.Tests = true, true, true, true, true
@@ -158,6 +177,7 @@ func TestMutants(t *testing.T) {
 		t.Skip("replay run")
 	}
 	ctx := h.Setup(t, "C02")
+	setupExclusions(ctx)
 	all := corpus.All()
 	rapid.Check(t, func(t *rapid.T) {
 		p := all[rapid.IntRange(0, len(all)-1).Draw(t, "prog")]
@@ -196,6 +216,7 @@ func TestBorderline(t *testing.T) {
 		t.Skip("replay run")
 	}
 	ctx := h.Setup(t, "C02")
+	setupExclusions(ctx)
 	rapid.Check(t, func(t *rapid.T) {
 		src, ops := cfz.Program(t, true)
 		current(src)
@@ -315,6 +336,7 @@ func TestBuiltins(t *testing.T) {
 		t.Skip("replay run")
 	}
 	ctx := h.Setup(t, "C02")
+	setupExclusions(ctx)
 	rapid.Check(t, func(t *rapid.T) {
 		sg := sigs[rapid.IntRange(0, len(sigs)-1).Draw(t, "builtin")]
 		call := &m.Call{Fn: sg.name, Ty: m.TNone}
@@ -441,6 +463,7 @@ func TestReplay(t *testing.T) {
 		t.Skip("no replay requested")
 	}
 	ctx := h.Setup(t, "C02")
+	setupExclusions(ctx)
 	var c Case
 	if _, err := h.LoadReplay(path, &c); err != nil {
 		t.Fatalf("cannot load replay: %v", err)
